@@ -208,9 +208,7 @@ def drop_dead_statements(tree):
     n = 0
     for node in ast.walk(tree):
         if isinstance(node, (ast.For, ast.While, ast.AsyncFor)):
-            while len(node.body) > 1 and isinstance(node.body[-1], ast.Continue):
-                node.body.pop()
-                n += 1
+            n += _strip_tail_continue(node.body)
         if isinstance(node, (ast.FunctionDef, ast.AsyncFunctionDef)):
             while len(node.body) > 1 and isinstance(node.body[-1], ast.Return) and (
                     node.body[-1].value is None or (
@@ -229,6 +227,130 @@ def drop_dead_statements(tree):
                     n += 1
                     break
     return n
+
+
+def _strip_tail_continue(blk):
+    n = 0
+    if not blk:
+        return 0
+    last = blk[-1]
+    if isinstance(last, ast.Continue) and len(blk) > 1:
+        blk.pop()
+        return 1 + _strip_tail_continue(blk)
+    if isinstance(last, ast.If):
+        n += _strip_tail_continue(last.body)
+        n += _strip_tail_continue(last.orelse)
+    return n
+
+
+def _single_append(body, name, method):
+    """(element expr(s), [conditions]) when ``body`` is `[if c: [if d:]] name.<method>(E)`."""
+    conds = []
+    b = body
+    while len(b) == 1 and isinstance(b[0], ast.If) and not b[0].orelse:
+        conds.append(b[0].test)
+        b = b[0].body
+    if len(b) != 1:
+        return None
+    st = b[0]
+    if method == 'setitem':
+        if isinstance(st, ast.Assign) and len(st.targets) == 1 and \
+                isinstance(st.targets[0], ast.Subscript) and \
+                isinstance(st.targets[0].value, ast.Name) and st.targets[0].value.id == name:
+            return (st.targets[0].slice, st.value), conds
+        return None
+    if isinstance(st, ast.Expr) and isinstance(st.value, ast.Call) and \
+            isinstance(st.value.func, ast.Attribute) and st.value.func.attr == method and \
+            isinstance(st.value.func.value, ast.Name) and st.value.func.value.id == name and \
+            len(st.value.args) == 1 and not st.value.keywords:
+        return (st.value.args[0],), conds
+    return None
+
+
+def _mentions(node, name):
+    return any(isinstance(x, ast.Name) and x.id == name for x in ast.walk(node))
+
+
+def loops_and_comprehensions(tree):
+    """N13 `x = []` + `for t in it: [if c:] x.append(E)`  ->  `x = [E for t in it if c]`
+    (also `x = {}` + `x[K] = V`, `x = set()` + `x.add(E)`);
+    N14 `x.extend(E for t in it if c)` / `x.extend([..comprehension..])`  ->  the for/append
+    loop.  Which of the two spellings builds a collection carries no meaning."""
+    n = 0
+    for node in ast.walk(tree):
+        for field in ('body', 'orelse', 'finalbody'):
+            blk = getattr(node, field, None)
+            if not isinstance(blk, list):
+                continue
+            i = 0
+            while i < len(blk):
+                st = blk[i]
+                # N14
+                if isinstance(st, ast.Expr) and isinstance(st.value, ast.Call) and \
+                        isinstance(st.value.func, ast.Attribute) and \
+                        st.value.func.attr == 'extend' and len(st.value.args) == 1 and \
+                        isinstance(st.value.args[0], (ast.GeneratorExp, ast.ListComp)) and \
+                        len(st.value.args[0].generators) == 1 and \
+                        not st.value.args[0].generators[0].is_async:
+                    g = st.value.args[0]
+                    gen = g.generators[0]
+                    call = ast.Expr(value=ast.Call(
+                        func=ast.Attribute(value=st.value.func.value, attr='append',
+                                           ctx=ast.Load()), args=[g.elt], keywords=[]))
+                    body = [call]
+                    for c in reversed(gen.ifs):
+                        body = [ast.If(test=c, body=body, orelse=[])]
+                    loop = ast.For(target=gen.target, iter=gen.iter, body=body, orelse=[])
+                    for x in ast.walk(loop):
+                        if not hasattr(x, 'lineno') and isinstance(x, (ast.expr, ast.stmt)):
+                            ast.copy_location(x, st)
+                    _store(loop.target)
+                    blk[i] = ast.copy_location(loop, st)
+                    n += 1
+                    i += 1
+                    continue
+                # N13
+                if isinstance(st, ast.Assign) and len(st.targets) == 1 and \
+                        isinstance(st.targets[0], ast.Name) and i + 1 < len(blk) and \
+                        isinstance(blk[i + 1], ast.For) and not blk[i + 1].orelse:
+                    nm = st.targets[0].id
+                    lp = blk[i + 1]
+                    kind = None
+                    v = st.value
+                    if isinstance(v, ast.List) and not v.elts:
+                        kind = 'append'
+                    elif isinstance(v, ast.Dict) and not v.keys:
+                        kind = 'setitem'
+                    elif isinstance(v, ast.Call) and isinstance(v.func, ast.Name) and \
+                            v.func.id == 'set' and not v.args and not v.keywords:
+                        kind = 'add'
+                    if kind:
+                        r = _single_append(lp.body, nm, kind)
+                        if r is not None and not _mentions(lp.iter, nm) and \
+                                not any(_mentions(e, nm) for e in r[0]) and \
+                                not any(_mentions(c, nm) for c in r[1]):
+                            elts, conds = r
+                            gen = ast.comprehension(target=lp.target, iter=lp.iter, ifs=conds,
+                                                    is_async=0)
+                            if kind == 'append':
+                                comp = ast.ListComp(elt=elts[0], generators=[gen])
+                            elif kind == 'add':
+                                comp = ast.SetComp(elt=elts[0], generators=[gen])
+                            else:
+                                comp = ast.DictComp(key=elts[0], value=elts[1], generators=[gen])
+                            st.value = ast.copy_location(comp, st.value)
+                            del blk[i + 1]
+                            n += 1
+                i += 1
+    return n
+
+
+def _store(t):
+    for x in ast.walk(t):
+        if isinstance(x, (ast.Name, ast.Tuple, ast.List, ast.Starred, ast.Attribute,
+                          ast.Subscript)) and hasattr(x, 'ctx'):
+            if isinstance(x, (ast.Name, ast.Tuple, ast.List, ast.Starred)):
+                x.ctx = ast.Store()
 
 
 def _is_isinstance(v):
@@ -252,5 +374,6 @@ def normalise(tree):
     r = _Rewriter()
     r.visit(tree)
     r.n += drop_dead_statements(tree)
+    r.n += loops_and_comprehensions(tree)
     ast.fix_missing_locations(tree)
     return r.n
